@@ -79,9 +79,13 @@ func c14WriteScratch(w http.ResponseWriter, text string) {
 func c14Doc() gen.S {
 	okBody := gen.S{"content": gen.S{"application/json": gen.S{"schema": gen.S{"type": "object", "required": gen.Arr("ok"), "properties": gen.S{"ok": gen.S{"type": "boolean"}}}}}, "description": "d",
 		"headers": gen.S{"X-Req": gen.S{"required": true, "schema": gen.S{"type": "integer"}}}}
+	responses := gen.S{"200": okBody, "201": gen.S{"description": "created, no content declared"}, "404": okBody}
 	return baseDoc(gen.S{"/m": gen.S{"get": gen.S{
 		"parameters": gen.Arr(gen.S{"name": "x", "in": "query", "required": true, "schema": gen.S{"type": "integer"}}),
-		"responses":  gen.S{"200": okBody, "201": gen.S{"description": "created, no content declared"}, "404": okBody},
+		"responses":  responses,
+	}}, "/f/{name}": gen.S{"get": gen.S{
+		"parameters": gen.Arr(gen.S{"name": "name", "in": "path", "required": true, "schema": gen.S{"type": "string"}}),
+		"responses":  responses,
 	}}})
 }
 
@@ -150,6 +154,10 @@ func runC14(c *core.Ctx) {
 		{"missing-parameter", "GET", "http://h.t/m", 400, openapi3filter.ErrCodeRequestInvalid},
 		{"unrouted-path", "GET", "http://h.t/nope?x=1", 404, openapi3filter.ErrCodeCannotFindRoute},
 		{"undeclared-method", "DELETE", "http://h.t/m?x=1", 404, openapi3filter.ErrCodeCannotFindRoute},
+		// the same validator serves a file name with an escaped slash (one segment: routed), then the URL whose decoded
+		// path is the same text but has one segment more (declared nowhere)
+		{"valid-escaped-slash-in-segment", "GET", "http://h.t/f/a%2Fb", 0, openapi3filter.ErrCodeOK},
+		{"unrouted-extra-segment", "GET", "http://h.t/f/a/b", 404, openapi3filter.ErrCodeCannotFindRoute},
 	}
 	scripts := c14Scripts(c.Pick(4, 6))
 	for si, script := range scripts {
@@ -157,13 +165,16 @@ func runC14(c *core.Ctx) {
 			continue
 		}
 		for _, cls := range classes {
-			if cls.name != "valid" && len(script) > 2 {
+			if cls.wantStatus != 0 && len(script) > 2 {
 				continue // the handler must not run at all: script content is irrelevant beyond a few
+			}
+			if cls.name == "valid-escaped-slash-in-segment" && len(script) > 2 {
+				continue
 			}
 			for _, strict := range []bool{false, true} {
 				for _, custom := range []bool{false, true} {
 					for oi := range c14OptionSets() {
-						if oi > 0 && (cls.name != "valid" || custom) {
+						if oi > 0 && (cls.wantStatus != 0 || custom) {
 							continue
 						}
 						c14Case(c, router, script, cls, strict, custom, oi)
@@ -222,7 +233,7 @@ func c14Case(c *core.Ctx, router routers.Router, script []c14op, cls c14reqClass
 	}
 	// is the bare response valid? (ValidateResponse is the definition)
 	respValid := true
-	if cls.name == "valid" {
+	if cls.wantStatus == 0 {
 		in, err := reqInput(router, httptest.NewRequest(cls.method, cls.target, nil), &openapi3filter.Options{})
 		if err == nil {
 			oo := optset.o
@@ -276,7 +287,7 @@ func c14Case(c *core.Ctx, router routers.Router, script []c14op, cls c14reqClass
 	c.Cover("request_class", cls.name)
 	c.Cover("options", optset.name)
 	clientBody := rec.Body.String()
-	if cls.name != "valid" {
+	if cls.wantStatus != 0 {
 		if calls != 0 {
 			c.Violate(feat("handler_ran_for_rejected_request"), mk(fmt.Sprint(calls), "0"), desc)
 		}
